@@ -23,20 +23,20 @@ func Meta(ns, name string, created int) metav1.ObjectMeta {
 
 // Path is one http path of an ingress rule: "path[:type]" -> service:port
 type Path struct {
-	Path     string
-	Type     string // "", exact, prefix, impl
-	Svc      string
-	Port     string // number or name
+	Path string `json:"path"`
+	Type string `json:"type"` // "", exact, prefix, impl
+	Svc  string `json:"svc"`
+	Port string `json:"port"` // number or name
 }
 
 type Rule struct {
-	Host  string
-	Paths []Path
+	Host  string `json:"host"`
+	Paths []Path `json:"paths"`
 }
 
 type TLS struct {
-	Hosts  []string
-	Secret string
+	Hosts  []string `json:"hosts"`
+	Secret string   `json:"secret"`
 }
 
 func backend(svc, port string) networking.IngressBackend {
